@@ -143,7 +143,10 @@ class SyncedDict(SyncedCollection, MutableMapping):
                     else:
                         if new_value == existing:
                             continue
-                        if _sc_resolver.get_type(existing) == "SYNCEDCOLLECTION":
+                        if (
+                            new_value is not None
+                            and _sc_resolver.get_type(existing) == "SYNCEDCOLLECTION"
+                        ):
                             try:
                                 existing._update(new_value)
                                 continue
